@@ -91,6 +91,35 @@ def run(tier, argv):
         i = (c["run"] - 1) // 2
         bad.append({"bad": "process crashed (fatal error) while handling this graph", "schema": json.dumps(cs[i]["schema"])[:300], "types": [json.dumps(t)[:200] for t in cs[i]["env"]["types"]],
                     "mesh": (c["run"] - 1) % 2 == 0, "want": cs[i]["want"], "stderr": c["stderr"]})
+    # Known.tla: types that are handed down (R: closure of "given"; I: take-over / allOf / check passes) - every configuration replayed
+    rawk = work.path("known.txt")
+    rk = vlib.tlc(work, "Known", "Known.cfg", consts={"Full": "FALSE" if quick else "TRUE"}, to_file=rawk, timeout=6000, heap="16g")
+    rep.add_tlc(rk, "Known (Agree: the library's three passes as algorithms = closure of given types, every configuration)")
+    for sw in ("AllOfBeforeTakeover", "TakeoverSkipsNew"):
+        rv = vlib.tlc(work, "Known", "Known.cfg", consts={"Full": "FALSE", sw: "TRUE"}, allow_violation=True, timeout=1200)
+        if not rv.violation:
+            raise vlib.Infra("vacuous: switch %s of Known.tla no longer violates Agree" % sw)
+    kcases = work.path("known-cases.ndjson")
+    nk = 0
+    with open(kcases, "w") as f:
+        for l in vlib.tagged_file(rawk, "@@CASE"):
+            f.write(l + "\n")
+            nk += 1
+    if nk == 0:
+        raise vlib.Infra("Known produced no cases")
+    km = work.path("known-mism.ndjson")
+    p = vlib.run_harness(hbin, ["c09known", "-cases", kcases, "-out", km], timeout=3000)
+    if p.returncode != 0:
+        raise vlib.Infra("c09known failed: " + p.stderr.decode()[-2000:])
+    ks = json.loads([l for l in p.stderr.decode().split("\n") if l.startswith("@@SUMMARY ")][0][10:])
+    if ks["judged"] == 0:
+        raise vlib.Infra("c09known judged nothing")
+    rep.notes["known"] = ks
+    results += ks["judged"]
+    n += nk
+    for m in vlib.read_ndjson(km):
+        bad.append({"bad": m["bad"], "schema": m["texts"]["root"], "types": ["%s = %s given %s" % (k, m["texts"][k].replace("\n", " "), m["case"]["given"][k]) for k in ("@a", "@b", "@c")],
+                    "mesh": True, "handed": "given to root: %s, in the order %s" % (m["case"]["given"]["root"], m["order"]), "want": m["case"]["want"], "check": m["check"]})
     rep.notes["wants"] = wants
     rep.notes["runs"] = results
     rep.cov["evaluations"] = results
